@@ -97,6 +97,7 @@ Section ValueInd.
   Hypothesis HIter : forall sh xs, Forall P xs -> P (VIter sh xs).
   Hypothesis HMap : forall kvs, Forall (fun kv => P (fst kv) /\ P (snd kv)) kvs -> P (VMap kvs).
   Hypothesis HPlain : forall s, P (VPlain s).
+  Hypothesis HInvalid : forall d, P (VInvalid d).
 
   Fixpoint value_ind' (v : value) : P v :=
     let many := fix many (xs : list value) : Forall P xs :=
@@ -122,6 +123,7 @@ Section ValueInd.
             | kv :: r => Forall_cons kv (conj (value_ind' (fst kv)) (value_ind' (snd kv))) (manyp r)
             end) kvs)
     | VPlain s => HPlain s
+    | VInvalid d => HInvalid d
     end.
 End ValueInd.
 
@@ -310,6 +312,7 @@ Section Structural.
       apply lex_items_tbl; auto. cbn [items_of]. apply flat_pairs_Forall.
       eapply Forall_impl; [|exact H]. cbn. intros kv [H1 H2]. split; auto.
     - destruct vy; try discriminate R1; destruct vz; try discriminate R2. cbn [vbody]. apply zlist_tbl.
+    - destruct vy; try discriminate R1; destruct vz; try discriminate R2; apply scalar_tbl; auto.
   Qed.
 
   Lemma lex_items_anti a y :
@@ -333,6 +336,7 @@ Section Structural.
       apply (lex_items_anti (VMap kvs) (VMap kvs0)); auto. cbn [items_of]. apply flat_pairs_Forall.
       eapply Forall_impl; [|exact H]. cbn. intros kv [H1 H2]. split; auto.
     - destruct vy; try discriminate R1. cbn [vbody]. apply zlist_anti.
+    - destruct vy; try discriminate R1; apply scalar_anti; auto.
   Qed.
 
   Lemma vcmp_refl_struct a : wfn a = true -> vcmp a a = Eq.
